@@ -203,8 +203,10 @@ func (db *DB) Get(key []byte) (kv.Entry, error) {
 
 func (db *DB) ScanPrefix(prefix []byte, errOut *error) iter.Seq[kv.Entry] {
 	sstables := db.currentSSTables()
-	iters := []iter.Seq[kv.Entry]{db.mtables.ScanPrefix(prefix, errOut), sstables.ScanPrefix(prefix, errOut)}
-	return kv.MergeEntries(iters)
+	// Keep delete markers until memtables and sstables are merged so that a
+	// delete still in a memtable masks the flushed put.
+	iters := []iter.Seq[kv.Entry]{db.mtables.ScanPrefixEntries(prefix, errOut), sstables.ScanPrefixEntries(prefix, errOut)}
+	return kv.WithoutDeletes(kv.MergeEntries(iters))
 }
 
 // Checkpoint initiates a DB checkpoint associated with the caller's provided
